@@ -177,6 +177,14 @@ def parser_literal_cases():
     exp = [("f", "len('abc')", None), ("g", "2", "kind('a')")]
     if got != exp:
         return {"confirmed": True, "input": {"source": src}, "actual": got, "expected": exp, "how": "real parser: (name, length, kind) of function results typed in the prefix with a literal in the type parameters"}
+    # a BIND statement: the binding label is a literal - its letters, blanks and commas are the user's
+    src = "module m\n  integer :: counter\n  bind(C, name=\"My Counter; v2 ! & it's\") :: counter\nend module m\n"
+    try:
+        got = [a for v in realrun.parse_source(src).modules[0].variables for a in v.attribs]
+    except Exception as e:
+        got = f"{type(e).__name__}: {e}"
+    if not (isinstance(got, list) and any("My Counter; v2 ! & it's" in a for a in got)):
+        return {"confirmed": True, "input": {"source": src}, "actual": got, "expected": "an attribute bind(..., name=\"My Counter; v2 ! & it's\") with the label as written", "how": "real parser: attributes given to a variable by a BIND statement"}
     # a PARAMETER statement: the values are separated at the commas and parentheses of the statement, never at those inside a literal
     src = "module m\n  character(len=2) :: sep\n  character(len=2) :: opn\n  integer :: n\n  parameter (sep = ', ', opn = '(=', n = 3)\nend module m\n"
     try:
@@ -270,8 +278,19 @@ def include_and_doc_layouts():
         if gotv != wantv:
             return {"confirmed": True, "input": {"source": text, "empty.inc": "! only a comment", "decl.inc": "integer :: b"}, "actual": gotv, "expected": wantv,
                     "how": "real parser: variables of a module that includes a file without statements"}
-    # indentation is layout: an alternate-mark block (`!*` then plain `!` lines) reads the same in column 1 and indented
+    # an ordinary comment line between the lines of a continued character literal is skipped wherever it starts
     rd = loader.import_repo("ford.reader")
+    res = {}
+    for label, ind in (("column 1", ""), ("indented", "   "), ("tab", "\t")):
+        text = f"x = 'abc&\n{ind}! a comment\n   &def'\ny = 1\n"
+        with realrun.project_dir({"t.f90": text}) as d:
+            try:
+                res[label] = list(rd.FortranReader(os.path.join(d, "t.f90")))
+            except Exception as e:
+                res[label] = f"{type(e).__name__}: {e}"
+    if any(v != ["x = 'abcdef'", "y = 1"] for v in res.values()):
+        return {"confirmed": True, "input": {"layouts": "x = 'abc& / <indent>! a comment / &def'"}, "actual": res, "expected": ["x = 'abcdef'", "y = 1"], "how": "real FortranReader: a comment line inside a continued literal"}
+    # indentation is layout: an alternate-mark block (`!*` then plain `!` lines) reads the same in column 1 and indented
     res = {}
     for label, ind in (("column 1", ""), ("indented", "   "), ("tab", "\t")):
         text = f"subroutine s(a)\n{ind}!* alternate block about s\n{ind}! goes on here\n{ind}! and here\n{ind}integer a\nend subroutine s\n"
